@@ -93,6 +93,7 @@ def accepts(ar, lengths: Tuple[int, Optional[int]], exact_len: Optional[Set[int]
 
 def run(ctx, rep):
     ix, T = ctx.ix, ctx.typer
+    single_pulse_loader(ctx, rep)
     from .common import check_falsy_zero
     check_falsy_zero(ctx, rep, "C17.7", ['jaqalpaq.parser.slyparse', 'jaqalpaq.core.circuitbuilder', 'jaqalpaq.qsyntax'], floor_positions=10)
     builder = ix.cls(BUILDER)
@@ -379,3 +380,25 @@ def _stmt_lists(fn):
 
     rec(fn.body)
     return out
+
+
+def single_pulse_loader(ctx, rep):
+    """C17.8: the three front ends agree on which pulse definitions a usepulses statement brings in only if they
+    resolve the module name the same way (relative names with a leading dot, import path, reload rules)."""
+    ix, T = ctx.ix, ctx.typer
+    rep.rule("C17.8", "every front end resolves the module of a usepulses statement through the library's one loader (jaqalpaq._import), never with importlib directly", floor=1)
+    n = 0
+    for f in ix.functions.values():
+        if isinstance(f.node, ast.Lambda) or not f.module.startswith("jaqalpaq.") or f.module in ("jaqalpaq._import",) or f.module.startswith(("jaqalpaq.emulator.pygsti", "jaqalpaq.ipc", "jaqalpaq._cli")):
+            continue
+        for nd in walk_no_nested(f.node):
+            if isinstance(nd, ast.Call) and ((isinstance(nd.func, ast.Attribute) and nd.func.attr in ("import_module", "__import__")) or (isinstance(nd.func, ast.Name) and nd.func.id in ("__import__", "import_module"))):
+                if nd.args and isinstance(nd.args[0], ast.Constant):
+                    continue
+                n += 1
+                rep.violation("C17.8", construct_of(f, f"direct-import:{ast.unparse(nd)[:40]}"), f"`{ast.unparse(nd)}` imports a program-supplied module name directly: a relative name (`.mygates`) cannot be imported this way, so Q-syntax drops or rejects a usepulses statement that text and builder load", f"{f.path}:{nd.lineno}", witness="Q.usepulses('.mygates')  vs  from .mygates usepulses *")
+    users = [f for f in ix.functions.values() if any(isinstance(m, ast.Name) and m.id in ("get_jaqal_gates", "jaqal_import") for m in ast.walk(f.node)) and f.module != "jaqalpaq._import"]
+    if not users:
+        raise AnalysisError("C17.8: nobody uses the loader of jaqalpaq._import (anchor vanished)")
+    if n == 0:
+        rep.ok("C17.8", "front-ends:pulse-loader", f"pulse modules are loaded through jaqalpaq._import only ({', '.join(sorted(short(u.qualname) for u in users)[:6])})")
